@@ -241,6 +241,7 @@ func runC11(w *World, c *Check) {
 	c.Rule("C11.guarded", "reads of sessions.Entries, session.{authTime,endTime,renewTill,tgt,sessionKey,sessionKeyExpiration,cancel} and client.Cache.Entries hold the owning mutex (R/W), writes hold it in W mode", 30)
 	c.Rule("C11.shared-write", "a store through memory reachable from the *Client receiver, in a context rooted at an exported Client method, is under a mutex of the same or an enclosing object", 1)
 	c.Rule("C11.readonly", "Config.GetKDCs, GetKpasswdServers, ResolveRealm and JSON do not write through memory aliased from the configuration", 4)
+	c.Rule("C11.permutation", "randServOrder hands out the configured servers once each: every step draws among those that remain and removes exactly the drawn one", 5)
 	c.Rule("C11.lockorder", "the lock-order graph of the client's mutexes is acyclic with no same-object re-entry; no KDC/network exchange is reachable while a lock is held", 2)
 
 	cl := w.SSAPkgs["client"]
@@ -518,4 +519,5 @@ func runC11(w *World, c *Check) {
 			"resolving servers/realms or dumping the configuration does not modify it (it is shared by every goroutine using the client)",
 			"writes through memory aliased from the configuration: "+strings.Join(ws, " | "))
 	}
+	ruleDrawRemove(w, c, "C11.permutation")
 }
